@@ -288,7 +288,7 @@ func (b *bodyRun) mergeNoPhi(in []edgeState) *State {
 // ---- contracts at call sites ----
 
 func (e *Exec) evalSpecBool(cl Clause, vars map[string]specVar, st, old *State, where string) (t *smt.Term) {
-	se := &specEnv{e: e, st: st, old: old, vars: vars, bound: map[string]Value{}, where: where + " `" + cl.Text + "`"}
+	se := &specEnv{e: e, st: st, old: old, vars: vars, bound: map[string]Value{}, where: where + " `" + cl.Text + "`", recBase: e.curRecBase}
 	return se.evalBool(cl.Expr)
 }
 
@@ -324,6 +324,47 @@ func (e *Exec) applyContract(st *State, spec *FuncSpec, sig *types.Signature, pa
 		e.oblige(st, "pre", short+": "+clauseLabel(rq), t, pos)
 	}
 	old := st.clone()
+	// ghost-trace indices in the callee's contract are relative to this call
+	// for the traces the callee itself appends (emits)
+	recBase := map[string]int{}
+	for _, em := range spec.Emits {
+		for _, r := range st.recs {
+			if r.Name == em.Name {
+				recBase[em.Name]++
+			}
+		}
+	}
+	// synthesize the ghost records the callee declares to append
+	for _, em := range spec.Emits {
+		mspec, msig := e.recordSource(em.Name)
+		for k := 0; k < em.N; k++ {
+			happened := c.Fresh(fmt.Sprintf("%s_%s%d_happened", smt.Sanitize(short), em.Name, k), smt.Bool)
+			rec := &CallRec{Name: em.Name, Guard: c.And(st.guard, happened), Snap: map[string]Value{}, Vars: map[string]specVar{}}
+			if mspec != nil && msig != nil {
+				names := append(append([]string{}, mspec.Params...), mspec.Results...)
+				var typs []types.Type
+				if mspec.Method || msig.Recv() != nil {
+					typs = append(typs, nil) // receiver: not modelled
+				}
+				for i := 0; i < msig.Params().Len(); i++ {
+					typs = append(typs, msig.Params().At(i).Type())
+				}
+				for i := 0; i < msig.Results().Len(); i++ {
+					typs = append(typs, msig.Results().At(i).Type())
+				}
+				for i, nme := range names {
+					if i >= len(typs) || typs[i] == nil {
+						continue
+					}
+					v := e.fresh(typs[i], fmt.Sprintf("%s_%s%d_%s", smt.Sanitize(short), em.Name, k, nme))
+					rec.Vars[nme] = func(*State) Value { return v }
+				}
+			}
+			rec.Pre = old
+			rec.Post = old
+			st.recs = append(append([]*CallRec{}, st.recs...), rec)
+		}
+	}
 	// havoc the assigned locations
 	if spec.AssignsAny {
 		e.refuse("assigns \\anything at a call site (%s)", key)
@@ -371,6 +412,9 @@ func (e *Exec) applyContract(st *State, spec *FuncSpec, sig *types.Signature, pa
 		}
 		st.recs = append(append([]*CallRec{}, st.recs...), rec)
 	}
+	savedBase := e.curRecBase
+	e.curRecBase = recBase
+	defer func() { e.curRecBase = savedBase }()
 	for _, en := range spec.Ensures {
 		if e.tryDefinitional(st, old, en, vars, short) {
 			continue
@@ -732,6 +776,19 @@ func (e *Exec) lookupType(s string) types.Type {
 	}
 	dot := strings.LastIndex(s, ".")
 	if dot < 0 {
+		// predeclared types
+		if o := types.Universe.Lookup(s); o != nil {
+			if tn, ok := o.(*types.TypeName); ok {
+				t := tn.Type()
+				for i := 0; i < ptr; i++ {
+					t = types.NewPointer(t)
+				}
+				return t
+			}
+		}
+		if s == "[]byte" {
+			return types.NewSlice(types.Typ[types.Uint8])
+		}
 		return nil
 	}
 	pkgName, tn := s[:dot], s[dot+1:]
@@ -886,4 +943,75 @@ func (e *Exec) havocKeepPtrs(st *State, old Value, name string, depth int, seen 
 		return old
 	}
 	return e.havocLike(old, name)
+}
+
+// lookupFunc resolves "pkg.Func" (package name or path) to an SSA function.
+func (e *Exec) lookupFunc(s string) *ssa.Function {
+	dot := strings.LastIndex(s, ".")
+	if dot < 0 {
+		return nil
+	}
+	pkgName, fn := s[:dot], s[dot+1:]
+	for _, p := range e.Prog.AllPackages() {
+		if p.Pkg.Name() == pkgName || p.Pkg.Path() == pkgName {
+			if f := p.Func(fn); f != nil {
+				return f
+			}
+		}
+	}
+	return nil
+}
+
+// recordSource finds the contract whose calls produce ghost records of the
+// given name, and the signature of the function / interface method.
+func (e *Exec) recordSource(name string) (*FuncSpec, *types.Signature) {
+	for key, fs := range e.DB.Funcs {
+		if fs.Records != name {
+			continue
+		}
+		if fs.Method {
+			// key = <interface type string>.<Method>
+			dot := strings.LastIndex(key, ".")
+			T := e.lookupType(key[:dot])
+			if T == nil {
+				return fs, nil
+			}
+			if it, ok := T.Underlying().(*types.Interface); ok {
+				for i := 0; i < it.NumMethods(); i++ {
+					if it.Method(i).Name() == key[dot+1:] {
+						return fs, it.Method(i).Type().(*types.Signature)
+					}
+				}
+			}
+			return fs, nil
+		}
+		if f := e.lookupFuncByKey(key, fs); f != nil {
+			return fs, f.Signature
+		}
+		return fs, nil
+	}
+	return nil, nil
+}
+
+func (e *Exec) lookupFuncByKey(key string, fs *FuncSpec) *ssa.Function {
+	for fn := range e.allFuncs() {
+		if funcKey(fn) == key {
+			return fn
+		}
+	}
+	return nil
+}
+
+func (e *Exec) allFuncs() map[*ssa.Function]bool {
+	if e.funcsMemo == nil {
+		e.funcsMemo = map[*ssa.Function]bool{}
+		for _, p := range e.Prog.AllPackages() {
+			for _, m := range p.Members {
+				if f, ok := m.(*ssa.Function); ok {
+					e.funcsMemo[f] = true
+				}
+			}
+		}
+	}
+	return e.funcsMemo
 }
